@@ -62,11 +62,6 @@ for _l in MID_LAYOUTS:
                                     only_modules=['swiftness_air::layout::' + _l])
 UNITS['layoutmid_dynamic']['rlimit'] = 60   # validate_public_input of the dynamic layout: one query with about 60 exits (uses about a third of this)
 
-# check_asserts of the dynamic layout (generated parameter checks): panic freedom and column-index ranges
-UNITS['dynasserts'] = dict(fragments=PRE + T('lemmas.rs', 'numth.rs', 'transcript.rs', 'pow.rs', 'commitment.rs', 'fri.rs', 'air.rs'),
-                           features={'std', 'keccak_160_lsb', 'keccak', 'stone5', 'asserts_dynamic'}, threads=2, stack=2 << 30, mem_kb=24_000_000, rlimit=200,
-                           only_modules=['swiftness_air::layout::dynamic_asserts'])
-
 # property -> units per tier, claim text for the manifest
 PROPS = {
     'C01': dict(quick=['core'], thorough=['core'],
